@@ -36,7 +36,9 @@ var fragKinds = []fragLayerKind{
 		func(nd *ctrlnet.Node, mtu int) p2p.Swarm[cAddr] { return fragswarm.New[cAddr](nd, mtu) }},
 	{"mbapp", 24, func() int { return 1 },
 		func(nd *ctrlnet.Node, mtu int) p2p.Swarm[cAddr] {
-			return mbapp.New[cAddr, string](nd, mtu, mbapp.WithNumWorkers(1))
+			sw := mbapp.New[cAddr, string](nd, mtu, mbapp.WithNumWorkers(1))
+			sw.VerifHoldPartials() // the driver, not the cleanup timer, decides which fragments arrive
+			return sw
 		}},
 }
 
@@ -253,7 +255,9 @@ func fragTellCase(c *ctxT, k fragLayerKind, inner, cfg int, seed uint64, size in
 		var dg uint64
 		maxLen := 0
 		for _, p := range pkts {
-			dg += fnv64(p.Data)
+			if len(pkts) <= 2000 { // beyond that only count and sizes are compared
+				dg += fnv64(p.Data)
+			}
 			if len(p.Data) > maxLen {
 				maxLen = len(p.Data)
 			}
